@@ -121,3 +121,40 @@ func TestC17LateRegistration(t *testing.T) {
 		}
 	}
 }
+
+// TestC17RegistryConsistency: "absent from the registry" is decided here in two independent ways.
+// The collector resolves template fields by (enterprise, id); the registry can also be asked by
+// (enterprise, name). Every element the id lookup resolves, over all ids of the three shipped
+// enterprises, must be one the name lookup knows too, with the same definition - otherwise the
+// collector treats as known an element that is not in the registry.
+func checkRegistryEntry(a []uint32) *ev.Failure {
+	ent, id := a[0], a[1]
+	ie, err := registry.GetInfoElementFromID(uint16(id), ent)
+	if err != nil || ie == nil {
+		return nil
+	}
+	byName, err := registry.GetInfoElement(ie.Name, ent)
+	if err != nil || byName == nil || byName.ElementId != ie.ElementId || byName.EnterpriseId != ie.EnterpriseId || byName.DataType != ie.DataType || byName.Len != ie.Len {
+		return ev.Failf("element (%d, %d) resolves by id to %q (type %d, length %d), but the registry of enterprise %d does not hold an element of that name with that definition (%v): the collector would treat an element that is absent from the registry as known", ent, id, ie.Name, ie.DataType, ie.Len, ent, err)
+	}
+	return nil
+}
+
+func TestC17RegistryConsistency(t *testing.T) {
+	if ev.Shard() > 1 {
+		return
+	}
+	n := 0
+	for _, ent := range []uint32{registry.IANAEnterpriseID, registry.IANAReversedEnterpriseID, registry.AntreaEnterpriseID} {
+		for id := 0; id < 32768; id++ {
+			if ie, err := registry.GetInfoElementFromID(uint16(id), ent); err == nil && ie != nil {
+				n++
+			}
+			if f := checkRegistryEntry([]uint32{ent, uint32(id)}); f != nil {
+				rec.Violation("registry_consistency", []uint32{ent, uint32(id)}, f.Msg)
+				t.Fatalf("%s", f.Msg)
+			}
+		}
+	}
+	rec.Case(ev.Hash([]any{"registry_consistency", n}), true, "registry_id_and_name_lookups_agree")
+}
